@@ -36,6 +36,7 @@ func runC17(c *Ctx) {
 	c17R9(c)
 	c17R10(c)
 	c17R11(c)
+	c17R12(c)
 	livePersisted(c, c.R.Rule("R7", "K8 what is persisted is the live instance: a pipeline/connector/processor service method that fetched an instance hands that very instance to store.Set, or a copy that sets every exported field", 10))
 }
 
@@ -782,4 +783,52 @@ func c17R11(c *Ctx) {
 		}
 	}
 	c.R.Check(validated, r, "processor.Service.Create: the processor id is validated", c.Pos(fn.Pos()), "validated", "processor.Service.Create accepts any id (pipeline and connector ids are restricted to [A-Za-z0-9-_:.]): an id with a comma, e.g. `mask,upper` from a config file, is stored as the key `processor:instance:pl:mask,upper`; the sqlite driver's GetKeys (group_concat, split on commas) returns it as two keys that do not exist, processor.Service.Init fails and the server cannot start any more", true)
+}
+
+// c17R12: what a restart loads is what the service served: in the pipeline/connector/processor services no exported field
+// of the instance is assigned behind the SUCCESS edge of the store.Set that persisted it (a field set after the write —
+// e.g. the error message of a status change — is in memory but not in the store: after a restart a degraded pipeline has
+// lost its error, or shows a stale one).
+func c17R12(c *Ctx) {
+	r := c.R.Rule("R12", "K3 nothing is changed after it was persisted: in pipeline/connector/processor service methods no exported field of the live instance is assigned behind the success edge of store.Set", 12)
+	for _, rel := range []string{pPipe, pConn, pProc} {
+		p := c.W.Pkg(rel)
+		set := c.Fn(r, rel, "(*Store).Set")
+		inst := c.W.LookupType(rel, "Instance")
+		if p == nil || set == nil || inst == nil {
+			continue
+		}
+		st := inst.Underlying().(*types.Struct)
+		for _, fn := range c.W.AllFuncs(c.W.SSA[p.Types]) {
+			if fn.Parent() != nil || fn.Signature.Recv() == nil {
+				continue
+			}
+			if n, ok := derefNamed(fn.Signature.Recv().Type()); !ok || n.Obj().Name() != "Service" {
+				continue
+			}
+			sets := kit.CallsTo(fn, Set(set))
+			if len(sets) == 0 {
+				continue
+			}
+			late := false
+			var at token.Pos = fn.Pos()
+			for _, sc := range sets {
+				for _, e := range kit.OKEdges(sc) {
+					for i := 0; i < st.NumFields(); i++ {
+						f := st.Field(i)
+						if !f.Exported() || f.Embedded() {
+							continue
+						}
+						for _, fs := range kit.FieldStores(fn, f) {
+							if fs.Block() == e.To || e.To.Dominates(fs.Block()) {
+								late = true
+								at = fs.Pos()
+							}
+						}
+					}
+				}
+			}
+			c.R.Check(!late, r, kit.FuncKey(fn)+": no instance field is assigned after the persist succeeded", c.Pos(at), "none", "an exported field of the live instance is assigned behind the success edge of store.Set: the stored document lacks it — memory is right until the next restart, which loads the old value (for UpdateStatus: a degraded pipeline comes back without its error, or with a stale one)", true)
+		}
+	}
 }
